@@ -2,6 +2,7 @@ package main
 
 import (
 	"encoding/json"
+	"fmt"
 	"os"
 	"path/filepath"
 	"strconv"
@@ -47,9 +48,18 @@ func checkC14(c *checkCtx) int {
 		NTHashes   []uint64          `json:"nontrivial_hashes"`
 		ProbeCases []json.RawMessage `json:"probe_cases"`
 		ClassMixes map[string]int    `json:"class_mix_histogram"`
+		Sentinels  []struct {
+			Case  json.RawMessage `json:"case"`
+			Hash  uint64          `json:"hash"`
+			Class string          `json:"class"`
+		} `json:"sentinels"`
 	}
 	tot := sumT{ByFamily: map[string]int{}, ClassMixes: map[string]int{}}
 	distinct := map[uint64]bool{}
+	sentinel := map[uint64]string{}
+	sentinelCase := map[uint64]json.RawMessage{}
+	sentinelDiff := map[uint64]string{}
+	sentinelRuns := 0
 	for _, w := range runs {
 		if w.ExitCode != 0 {
 			c.infraf("%s", describeFailure(w))
@@ -87,11 +97,36 @@ func checkC14(c *checkCtx) int {
 					tot.Samples = append(tot.Samples, s.Samples[0])
 				}
 				tot.ProbeCases = append(tot.ProbeCases, s.ProbeCases...)
+				for _, sn := range s.Sentinels {
+					if prev, ok := sentinel[sn.Hash]; !ok {
+						sentinel[sn.Hash] = sn.Class
+						sentinelCase[sn.Hash] = sn.Case
+					} else if prev != sn.Class {
+						sentinelDiff[sn.Hash] = prev + " vs " + sn.Class
+					}
+					sentinelRuns++
+				}
 			}
 		}
 		if !got {
 			c.infraf("worker produced no summary: %s", describeFailure(w))
 		}
+	}
+	// the same sentinel cases ran in every worker process: their outcomes must agree
+	for h, d := range sentinelDiff {
+		var cs struct {
+			Obj struct {
+				Expr string `json:"expr"`
+			} `json:"obj"`
+			Op     string `json:"op"`
+			Family string `json:"family"`
+		}
+		json.Unmarshal(sentinelCase[h], &cs)
+		c.report(Violation{Type: "violation", Property: "C14", Engine: "ordersim", Kind: "differs-between-processes",
+			Key:    "C14/process/" + cs.Op + "/" + cs.Family,
+			Detail: fmt.Sprintf("%s %q gives different outcomes for the same datum in different worker processes (%s): the result is not a function of (expression, options, datum)", cs.Op, cs.Obj.Expr, d),
+			Seed:   c.Seed,
+			Replay: mustMarshal(map[string]interface{}{"engine": "ordersim", "property": "C14", "build": "plain", "seed": c.Seed, "case": sentinelCase[h], "cross_process": true})})
 	}
 	// probe on the untouched build
 	probed, calls := 0, 0
@@ -146,6 +181,7 @@ func checkC14(c *checkCtx) int {
 		"fault_kinds_fired": map[string]int{
 			"map_order_permutation_decisions": tot.Decisions,
 		},
+		"cross_process_sentinels": map[string]interface{}{"cases": len(sentinel), "executions": sentinelRuns, "note": "the same seeded cases are executed by every worker process; their outcome classes must agree"},
 		"uncontrolled_probe": map[string]interface{}{
 			"cases": probed, "repetitions_each": reps, "calls": calls,
 			"note": "executed on the untouched sources under the real Go runtime; a divergence here that the seam did not predict is an order source the instrumenter missed and is reported as a (statistical) violation",
